@@ -444,7 +444,13 @@ pub async fn run_client(w: Rc<World>, plan: Rc<Plan>) {
 pub fn start_senders(w: &Rc<World>, plan: &Rc<Plan>, sink: v3::MqttSink) {
     if plan.senders.iter().flatten().any(|o| matches!(o, AppOp::PubQ1Nb { .. })) {
         let w = w.clone();
-        sink.publish_ack_cb(move |pid, disc| w.ack_cb(pid.get(), 0, 0, disc));
+        let q = if plan.cfg.cb_queries { Some(sink.clone()) } else { None };
+        sink.publish_ack_cb(move |pid, disc| {
+            if let Some(s) = &q {
+                w.cb_query(s.is_open(), s.is_ready(), s.credit());
+            }
+            w.ack_cb(pid.get(), 0, 0, disc)
+        });
     }
     for (sidx, ops) in plan.senders.iter().enumerate() {
         let slot = w.add_sender(ops.len());
